@@ -828,6 +828,14 @@ void generate(const std::string &, Rng &wl, Rng &fl, Case &c)
     c.tasks.push_back(p);
   }
   vsim::draw_run_config(fl, sk, c.rc);
+  // MultiRecordable fans setters out in an order that depends on processor addresses; with
+  // several processors the number of function boundaries crossed before a harness yield is
+  // therefore not a function of the run, so call-boundary preemption stays off in those runs
+  if (c.knob("nproc", 1) > 1)
+  {
+    c.rc.call_period = 0;
+    c.rc.p_call      = 0;
+  }
   c.rc.budget1 = 30000;
 }
 
